@@ -118,7 +118,7 @@ def _kl_closed(Mu, Su_factor_or_cov, Gp, mz, whitened, M):
     raise NotImplementedError
 
 
-def strategy(S, strat, dist, M, n, batch, training, what="both"):
+def strategy(S, strat, dist, M, n, batch, training, what="both", trace=False):
     bs = (batch,) if batch else ()
     N = M + n
     Z = labels(0, M, bs)
@@ -149,7 +149,7 @@ def strategy(S, strat, dist, M, n, batch, training, what="both"):
     S.put(table, K)
     do_qf = what in ("both", "qf")
     do_kl = what in ("both", "kl") and dist != "delta"
-    with S.mode():
+    with S.mode(), gpytorch.settings.trace_mode(trace):
         mall = as_sym_arr(SH.get(model.mean_module(labels(0, N, bs))))
         q_u = vs.variational_distribution
         qu_mean = q_u.mean
@@ -679,6 +679,8 @@ def scenarios(tier, seed):
             if dist != "delta":
                 add("strategy", strat="unwhitened", dist=dist, M=2, n=1, batch=0, training=(i % 2 == 0), what="kl")
         add("strategy", strat="variational", dist="cholesky", M=2, n=1, batch=2, training=False)
+        add("strategy", strat="variational", dist="cholesky", M=2, n=2, batch=0, training=False, trace=True)
+        add("strategy", strat="unwhitened", dist="meanfield", M=2, n=1, batch=0, training=False, what="qf", trace=True)
         add("strategy", strat="variational", dist="meanfield", M=1, n=2, batch=0, training=True)
         add("prior_case", strat="variational", M=2, n=2)
         add("prior_case", strat="unwhitened", M=2, n=2)
